@@ -50,6 +50,21 @@ def encode(doc, enc):
     raise ValueError(enc)
 
 
+def big_broken(rng, i):
+    """A large message (well over one parser buffer) that is a perfect MOS message up to its last bytes and
+    not well-formed after that: truncated, trailing junk, a mismatched tag, a bare ampersand near the end."""
+    doc = B.msg_doc('roStoryAppend', 50 + i % 40, carried=[gen.simple_story('BIG%d.%d' % (i, k), 3) for k in range(250)])
+    how = rng.choice(['truncated', 'junk', 'mismatch', 'ampersand'])
+    if how == 'truncated':
+        return doc[:-rng.randint(3, 40)]
+    if how == 'junk':
+        return doc + rng.choice(['trailing', '<more/>', '</mos>'])
+    if how == 'mismatch':
+        return doc[:-len('</roStoryAppend></mos>')] + '</roStoryInsert></mos>'
+    k = doc.rfind('<itemSlug>')
+    return doc[:k + 10] + 'AT&T ' + doc[k + 10:]
+
+
 def sources(s, i, tmpdir):
     rng = s.rng('doc', i)
     pool = gen.text_pool('hostile')
@@ -66,6 +81,8 @@ def sources(s, i, tmpdir):
         kind, doc = 'unclassifiable', rng.choice(UNCLASSIFIABLE)
     elif r < 0.09:
         kind, doc = 'malformed', rng.choice(['<mos><roCreate>', 'not xml', ''])
+    elif r < 0.12:
+        kind, doc = 'malformed', big_broken(rng, i)
     enc = ENCODINGS[i % len(ENCODINGS)]
     judge_sources(s, doc, enc, kind, tmpdir, i)
 
@@ -157,6 +174,10 @@ def readers(s, i, tmpdir):
     if rng.random() < 0.12:
         # one document the library cannot classify: all three constructors refuse the list the same way
         docs.insert(rng.randint(1, len(docs)), rng.choice(UNCLASSIFIABLE))
+    elif rng.random() < 0.1:
+        # one large document that stops being well-formed near its end: refused by every constructor alike
+        docs.insert(rng.randint(1, len(docs)), big_broken(rng, i))
+        s.hist['reader_lists_with_a_large_broken_document'] += 1
     judge_readers(s, docs, tmpdir, rng)
 
 
@@ -244,12 +265,14 @@ def listings(s, i):
     big = i % 25 == 7
     if big:
         n = rng.choice([999, 1000, 1001, 2500])       # the service pages at 1000 keys
-    suffix = rng.choice(['.mos.xml', '.mos.xml', '.xml', 'x'])
+    # a suffix is literal text, whatever characters it holds
+    suffix = rng.choice(['.mos.xml', '.mos.xml', '.xml', 'x', '[1].mos.xml', '?.mos.xml', '*.xml', '.mos.xm[l]'])
+    plain = suffix.replace('[1]', '1').replace('?', 'q').replace('*', 'star').replace('[l]', 'l')
     prefixes = ['', 'a/', 'a/b', 'zz', 'a/b/']
     keys = []
     for k in range(n):
         stem = rng.choice(['a/', 'a/b/', 'a/bb', 'c/', '']) + rng.choice(['f%d', 'f.%d.v2', '22.31.%d-x', 'f+%d', 'f%%2F%d', 'f %d']) % k
-        ending = rng.choice([suffix, suffix, '.txt', suffix + '.bak', '', suffix.upper(), suffix + suffix, '.mos' + suffix])
+        ending = rng.choice([suffix, suffix, '.txt', suffix + '.bak', '', suffix.upper(), suffix + suffix, '.mos' + suffix, plain])
         if rng.random() < 0.1:
             stem = stem + suffix + 'mid'
         keys.append(stem + ending)
